@@ -169,7 +169,13 @@ def G_solve(cell, cart):
 # =============================================================================== H20c
 def h20c(cellname, nat, axis, pbc=(True, True, False)):
     def fn(e):
-        cell = tri_cell(e) if cellname == "tri" else const_array(CELLS.FAMILY[cellname])
+        if cellname == "tri":
+            cell = tri_cell(e)
+        elif cellname == "full":
+            cell = e.real_array("c", (3, 3))
+            e.assume(det3(cell).rel(lambda a, b: a != b))
+        else:
+            cell = const_array(CELLS.FAMILY[cellname])
         pos = e.real_array("p", (nat, 3))
         ms = e.real("min_size", lo=0, lo_strict=True)
         atoms = StubAtoms(cell=cell, positions=pos, numbers=[1] * nat, pbc=pbc)
@@ -466,6 +472,7 @@ def plan(tier):
         jobs += [("H20c", f"H20c:tri:n{n}:ax{ax}", h20c("tri", n, ax)) for ax in (0, 1, 2) for n in (1, 2, 3)]
         jobs += [("H20c", f"H20c:{c}:n3:ax{ax}", h20c(c, 3, ax)) for ax in (0, 1, 2) for c in ("pyth", "rot", "shear", "ortho")]
         jobs += [("H20c", f"H20c:pyth:n4:ax{ax}", h20c("pyth", 4, ax)) for ax in (2,)]
+        jobs += [("H20c", f"H20c:full:n1:ax{ax}", h20c("full", 1, ax)) for ax in (0, 1, 2)]     # 9-parameter symbolic cell: one atom only
     jobs += [("H20d", f"H20d:{a}{b}:{''.join('T' if x else 'F' for x in pbc)}", h20d(a, b, pbc)) for a in range(3) for b in range(3) for pbc in CELLS.PBCS]
     jobs += [("H20e", "H20e:b=(0,3,4)", h20e([0, 3, 4])), ("H20e", "H20e:b=(2,-6,9)", h20e([2, -6, 9]))]
     if tier == "thorough":
@@ -500,7 +507,7 @@ def main(tier, seed, only=None):
                  "cos/sin/arctan2 as uninterpreted functions (H20f)", "np.linalg.eigh records its argument and returns fresh symbols (H20g)"]
     rep.assumptions = ["exact real arithmetic (no rounding)", "cell non-singular", "masses in [0.5, 250]"]
     rep.outside = ["translation covariance of the *periodic* components of the centre of mass (needs angle addition)", "floating-point rounding",
-                   "more atoms than stated", "9-parameter symbolic cell in get_minimized_cell (z3 unknown); the triangular cell covers every cell up to rotation"]
+                   "more atoms than stated", "9-parameter symbolic cell in get_minimized_cell with 2 or more atoms (did not finish in 14 min; one atom is in the thorough tier); the triangular cell covers every cell up to rotation"]
     return rep.finish()
 
 
